@@ -27,8 +27,15 @@ def camel_to_snake(name: str) -> str:
 
 
 def snake_to_camel(name: str) -> str:
-    """Converts a snake case string to camel case."""
-    return "".join([i.capitalize() for i in name.split("_")])
+    """Converts a snake case string to camel case. The underscore between two numeric
+    segments is kept, otherwise e.g. `r_1_10` and `r_11_0` would both become `R110`."""
+    parts = name.split("_")
+    camel = ""
+    for i, part in enumerate(parts):
+        if i > 0 and part.isdigit() and parts[i - 1].isdigit():
+            camel += "_"
+        camel += part.capitalize()
+    return camel
 
 
 def short_dir(direction: str) -> str:
